@@ -35,7 +35,7 @@ VERIF = os.path.dirname(os.path.dirname(os.path.abspath(__file__)))
 COQ = os.path.join(VERIF, "coq")
 REPO = os.environ.get("VERIF_REPO", "/repo")
 CASES_DIR = os.path.join(COQ, "cases")
-NCPU = min(16, os.cpu_count() or 4)
+NCPU = min(int(os.environ.get("VERIF_NCPU", "16")), os.cpu_count() or 4)
 
 FORBIDDEN = re.compile(
     r"\b(Admitted|admit|Axiom|Axioms|Parameter|Parameters|Conjecture|Conjectures|Abort All)\b"
@@ -147,17 +147,40 @@ def eval_cases_in_coq(tag, imports, terms, shard=300, timeout=600):
     """terms: list of Coq bool terms.  Returns (ok, bad_indices, log).  One shard per file,
     all shards under xargs -P; each prints only the indices of the [false] verdicts."""
     os.makedirs(CASES_DIR, exist_ok=True)
+    # cache keyed by every model source + the terms themselves (a changed byte anywhere changes the key)
+    h = hashlib.sha256()
+    for root in ("theories", "gen"):
+        for d, dirs, fs in sorted(os.walk(os.path.join(COQ, root))):
+            dirs.sort()
+            for f in sorted(fs):
+                if f.endswith(".v"):
+                    h.update(f.encode())
+                    h.update(open(os.path.join(d, f), "rb").read())
+    h.update(imports.encode())
+    for t in terms:
+        h.update(t.encode())
+        h.update(b"\0")
+    cdir = os.path.join(VERIF, ".cache", "coq")
+    os.makedirs(cdir, exist_ok=True)
+    cpath = os.path.join(cdir, h.hexdigest()[:32] + ".json")
+    if os.path.exists(cpath):
+        try:
+            c = json.load(open(cpath))
+            return True, c["bad"], ""
+        except Exception:
+            pass
     for f in os.listdir(CASES_DIR):
         if f.startswith("cases_%s_" % tag):
             os.unlink(os.path.join(CASES_DIR, f))
     shards = []
     for k in range(0, len(terms), shard):
         name = "cases_%s_%d" % (tag, k // shard)
-        body = ["From BV Require Import Base.Prelude.", imports, "",
-                "Definition verdicts : list bool := ["]
+        body = ["From BV Require Import Base.Prelude.", imports, ""]
         chunk = terms[k:k + shard]
-        body.append(";\n".join("  (" + t + ")" for t in chunk))
-        body.append("].")
+        # one definition per case: elaborating one huge list literal is more than 2x slower
+        for j, t in enumerate(chunk):
+            body.append("Definition v%d : bool := (%s)." % (j, t))
+        body.append("Definition verdicts : list bool := [" + "; ".join("v%d" % j for j in range(len(chunk))) + "].")
         body.append('Eval vm_compute in (length verdicts, bad_idx verdicts).')
         open(os.path.join(CASES_DIR, name + ".v"), "w").write("\n".join(body) + "\n")
         shards.append((name, k, len(chunk)))
@@ -190,6 +213,13 @@ def eval_cases_in_coq(tag, imports, terms, shard=300, timeout=600):
     for f in os.listdir(CASES_DIR):
         if f.startswith("cases_%s_" % tag) and not f.endswith(".v"):
             os.unlink(os.path.join(CASES_DIR, f))
+    if ok:
+        tmp = cpath + ".%d.tmp" % os.getpid()
+        json.dump({"bad": sorted(bad)}, open(tmp, "w"))
+        os.replace(tmp, cpath)
+        files = sorted((os.path.getmtime(os.path.join(cdir, f)), f) for f in os.listdir(cdir) if f.endswith(".json"))
+        for _, f in files[:-200]:
+            os.unlink(os.path.join(cdir, f))
     return ok, sorted(bad), "\n".join(log)
 
 
@@ -238,6 +268,8 @@ def _impl_worker(args):
 
 
 def run_impl(mod, cases):
+    if hasattr(mod, "impl_batch"):
+        return mod.impl_batch(cases)
     if getattr(mod, "PARALLEL", False) and len(cases) > 8:
         import multiprocessing as mp
         ctx = mp.get_context("fork")
